@@ -394,9 +394,17 @@ func num(v interface{}) (float64, bool) {
 	return 0, false
 }
 
+var subLookup = func() func(interface{}) ([]interface{}, error) {
+	f, err := jsonpath.Parse("$.a")
+	if err != nil {
+		panic(err)
+	}
+	return f
+}()
+
 // Std is the standard deterministic function set:
 // filter functions  twice (numbers ×2, strings doubled, arrays doubled, error otherwise),
-// ident, wrap (v -> [v]), nostr (error on strings, identity otherwise), pick (numbers > 1 of an array; a nil slice when none);
+// ident, wrap (v -> [v]), nostr (error on strings, identity otherwise), pick (numbers > 1 of an array; a nil slice when none), sub (member a of the argument, looked up with the library; returns the library's own error);
 // aggregates  count, first (error on empty), echo (a copy of its argument), keep (its argument itself), sum (error unless all numbers).
 func Std() FuncSet {
 	return FuncSet{
@@ -420,6 +428,16 @@ func Std() FuncSet {
 					return nil, errors.New("nostr: string")
 				}
 				return v, nil
+			},
+			// sub looks up member a of its argument WITH THE LIBRARY ITSELF (a function parsed once, so no lock is taken per
+			// call) and returns that call's error verbatim: the error a user function returns can be one of the library's
+			// own runtime errors
+			"sub": func(v interface{}) (interface{}, error) {
+				r, err := subLookup(v)
+				if err != nil {
+					return nil, err
+				}
+				return r[0], nil
 			},
 			// pick keeps the numbers > 1 of an array, built the usual Go way (var out; append): the result is a NIL
 			// slice when nothing is kept - an array a decoder never produces; other values pass unchanged
